@@ -27,7 +27,7 @@ CHECKS.update({
             "for every stream over a 4-symbol alphabet up to 8 (quick) / 11 (thorough) bytes.  Code level: every message the real code delivers on generated streams and "
             "every result of single-frame decoding is checked by TLC against the frame definition with the real CRC-24Q written in TLA+; the same pass reports drift of the code from the model.",
             FR_NOTE, "DESIGN.md 6/C01"),
-    "C02": ("model_checking", "TLC model checking of FramerCore.tla (lossless invariant, all toy streams and EOF positions) + TLC trace validation of real channel runs against the Lossless L0 state machine",
+    "C02": ("model_checking", "TLC model checking of FramerCore.tla (lossless invariant, all toy streams and EOF positions) + TLC trace validation of real channel runs against the Lossless L0 state machine (+ PushBack.tla model-checked and the real rtcm/pushback type validated against it, as a conformance note)",
             "Design level: Concat(out) is a prefix of the input in every reachable state, no empty message, everything delivered at close (inductive strengthening C02ind), for all toy streams. "
             "Code level: traces of the real HandleMessages over real channels (capacities {0,1,8,n+1} x {0,1,4}, paced producer/consumer) are validated event by event: each message must be the next input bytes, "
             "close exactly once after everything was delivered, no panic, no hang.",
@@ -58,13 +58,13 @@ CHECKS.update({
 TT_NOTE = ("Trusted: TLC; the toy calendar of the exhaustive runs (4 ticks a day, week starts 1/2/3 ticks before Sunday, 3.4 weeks horizon) stands for the real one; "
            "reported times are read back from the message's SentAt/StartOfWeek strings; conformance is sampling over generated and TLC-simulated histories.")
 CHECKS.update({
-    "C06": ("model_checking", "TLC model checking of TimeTrack.tla against the true-time spec + TLC-simulated and counterexample histories replayed on the real handler + TLC trace validation (Time_Trace.tla)",
+    "C06": ("model_checking", "TLC model checking of TimeTrack.tla against the true-time spec + Apalache inductive invariant over unbounded integer time (TimeTrack_Ind.tla, bound to TimeTrack by TLC) + TLC-simulated and counterexample histories replayed on the real handler + TLC trace validation (Time_Trace.tla)",
             "Design level: the handler's rollover algorithm (TimeTrack.tla, one Convert per message) reports the true time and start of week for every start time, every interleaving of 2-3 constellations, "
             "illegal timestamps anywhere, over 3 toy weeks; the as-found deviations are named switches whose counterexamples TLC produces.  Code level: those counterexamples, random TLC simulations and "
             "rollover-focused generated histories are encoded into CRC-valid MSM frames and pushed through GetMessage and HandleMessages; TLC validates every reported time against the truth with the real "
             "constants (18 s / 4 s / 3 h offsets) and decides the property's preconditions itself.",
             TT_NOTE, "DESIGN.md 6/C06"),
-    "C17": ("model_checking", "as C06 with the weaker precondition (first observation anywhere in the start time's constellation week)",
+    "C17": ("model_checking", "as C06 with the weaker precondition (first observation anywhere in the start time's constellation week); also the built displayrtcm3 program with every date of the week under several TZ settings, validated by the same trace specification",
             "Same specifications as C06 with FirstNotBeforeT = FALSE: model checked for all (T, first observation) pairs of a week and continuations; the real handler is driven with first observations "
             "before, at and after T (down to +-1 ms and the week's last ms) for all four constellations.",
             TT_NOTE, "DESIGN.md 6/C17"),
@@ -134,7 +134,7 @@ CHECKS.update({
             "for every capacity 1..8, long runs far beyond capacity, and concurrent adders/readers under the race detector; the addition order is logged by the verif hook inside the critical section, and TLC checks each snapshot is the "
             "contiguous run LastMin(N, adds[1..k]) for a k consistent with the real-time order of calls and returns.",
             "Trusted: the hook placement (after the insertion, before Unlock); atomic stamp counter for real-time order.", "DESIGN.md 6/C18"),
-    "C19": ("model_checking", "TLC model checking of Proxy.tla (relay, tee into the parser, queue, status snapshot; crashing-parser switch as vacuity guard) + TLC trace validation of TCP loopback sessions through the built binary",
+    "C19": ("model_checking", "TLC model checking of Proxy.tla (relay, tee into the parser, queue, status snapshot; crashing-parser switch as vacuity guard) + TLC model checking of ProxyMulti.tla (several connections sharing one parser) + TLC trace validation of TCP and TLS loopback sessions through the built binary",
             "Proxy.tla shows the relay never depends on the status reader and delivers everything under fairness, and that a crashing parser kills the relay (why the C07 defect was also a C19 defect).  Code: sessions through the built proxy "
             "with harness-owned upstream server and client, both directions at once, chunkings from 1 byte to whole-buffer bursts, valid / malformed / random / HTML-spelling traffic; TLC requires byte-for-byte relay, the process alive, "
             "the report's messages (read back from the hex dumps) to be a run of what FramerCore delimits in the client stream, and no '<' or '>' in any traffic-derived slot of the report.",
